@@ -42,7 +42,8 @@ TIERS = {
 }
 FLOORS = {
     "quick": {"counts": {"writer_stream_comparisons": 15000, "flush_checks": 2000, "teardown_checks": 1500,
-                         "payloads_written": 10000, "disk_readbacks": 1000}, "keys": 100},
+                         "payloads_written": 10000, "disk_readbacks": 1000,
+                         "teardown_by_exception_in_with_block": 200}, "keys": 100},
     "thorough": {"counts": {"writer_stream_comparisons": 700000}, "keys": 150},
 }
 KINDS = ["path", "bytesio", "stringio", "binfile", "textfile", "console", "custom",
@@ -307,8 +308,14 @@ def _run(ctx, col, case, rng, tmp):
             registered = [w for w in writers if w.registered]
             counts_before = {id(w): w.writer.disconnected for w in registered if w.kind == "custom"}
             ref_before = ref.disconnected
-            if rng.random() < 0.4:
+            r = rng.random()
+            if r < 0.25:
                 g.__exit__(None, None, None)     # leaving a `with GCodeBuilder(...)` block tears down
+            elif r < 0.45:
+                # ... also when the block is left by an exception (that is what the with form is for)
+                err = RuntimeError("body of the with block failed")
+                g.__exit__(RuntimeError, err, None)
+                col.count("teardown_by_exception_in_with_block")
             else:
                 g.teardown()
             account()
